@@ -199,6 +199,8 @@ def observe(api: str, M0: onnx.ModelProto, o: dict) -> dict:
         err_p = type(e).__name__
     P = rp if ret_p == "fresh" else Mp
     proto = {"arg_mutated": _bytes(Mp) != before, "ret": ret_p}
+    LAST["proto_opset_after"] = next((x.version for x in P.opset_import if x.domain == ""), None)
+    LAST["proto_error"] = err_p
     # ---- IR entry
     Mi = copy.deepcopy(M0)
     m = ir.serde.deserialize_model(Mi)
@@ -215,6 +217,17 @@ def observe(api: str, M0: onnx.ModelProto, o: dict) -> dict:
     if fns is not None:
         out["fns_mutated"] = [_bytes(f) for f in fns] != fns_before
     return out
+
+
+def remove_unused_nodes_report(M0: onnx.ModelProto) -> tuple[bool, bool]:
+    """(what RemoveUnusedNodesPass reports as `modified`, whether the serialised model changed) on de(copy of M0)."""
+    import onnx_ir.passes.common as cp
+
+    opt, rw, vc, ir, rep = _mods()
+    m = ir.serde.deserialize_model(copy.deepcopy(M0))
+    before = _bytes(ir.serde.serialize_model(m))
+    r = cp.RemoveUnusedNodesPass()(m)
+    return bool(r.modified), _bytes(ir.serde.serialize_model(r.model)) != before
 
 
 def run_inline(M0: onnx.ModelProto) -> dict:
